@@ -192,9 +192,10 @@ Lemma reader_matched_every_item :
   map fst source_shape = anchored_items /\ Forall (fun e => snd e = true) source_shape.
 Proof. split; [vm_compute; reflexivity | repeat constructor]. Qed.
 
-(* the decimal literals read from Curve::prime() are the executed primes;
-   the executed prime_size() is the bit length of the executed prime (the body
-   of UsefulConstants::prime_size is `self.prime.bits()`) *)
+(* READER / EXECUTION CROSS-CHECK, not a property theorem (fourth audit: demoted
+   from the obligations): the decimal literals the Python reader finds in
+   Curve::prime() are the executed primes; the executed prime_size() is the bit
+   length of the executed prime (also a consequence of primes_are_documented) *)
 Lemma prime_literals_are_executed_primes :
   (forall c, assoc (variant_name c) source_prime_literals = Some (prime c)) /\
   (forall c, prime_size c = bit_size (prime c)).
@@ -511,6 +512,48 @@ Lemma unicode_normaliser_accepts_more :
   parse_curve "blſ12_381" = Rejected /\
   parse_curve "goldilockſ" = Rejected.
 Proof. vm_compute. repeat split; reflexivity. Qed.
+
+(* ------------------------------------------------------------------ *)
+(* the model of str::to_uppercase (fourth audit: it is compared with the  *)
+(* executed str::to_uppercase on every spelling of every run, and it is   *)
+(* the subject of a quantified statement): on ASCII text it is [upper]    *)
+(* ------------------------------------------------------------------ *)
+Definition code (a : ascii) : Z := Z.of_N (N_of_ascii a).
+
+Lemma utf8_decode_ascii : forall s, ascii_only s = true ->
+  utf8_decode s O 0 0 = Some (map code (list_ascii_of_string s)).
+Proof.
+  induction s as [|a s IH]; intro H; [reflexivity|].
+  simpl in H. apply andb_true_iff in H. destruct H as [Ha Hs].
+  cbn [utf8_decode list_ascii_of_string map].
+  assert (E : (Z.of_N (N_of_ascii a) <? 128) = true).
+  { apply Z.ltb_lt. apply N.ltb_lt in Ha. lia. }
+  rewrite E. rewrite (IH Hs). reflexivity.
+Qed.
+
+Lemma upper_chars_ascii : forall s, ascii_only s = true ->
+  upper_chars (map code (list_ascii_of_string s)) = Some (upper s).
+Proof.
+  induction s as [|a s IH]; intro H; [reflexivity|].
+  simpl in H. apply andb_true_iff in H. destruct H as [Ha Hs].
+  cbn [list_ascii_of_string map upper_chars upper]. rewrite (IH Hs).
+  unfold upper_char, code.
+  assert (E : (Z.of_N (N_of_ascii a) <? 128) = true).
+  { apply Z.ltb_lt. apply N.ltb_lt in Ha. lia. }
+  rewrite E. rewrite N2Z.id. rewrite ascii_N_embedding. reflexivity.
+Qed.
+
+Lemma unicode_upper_ascii_agrees : forall s, ascii_only s = true -> unicode_upper s = Some (upper s).
+Proof.
+  intros s H. unfold unicode_upper. rewrite (utf8_decode_ascii s H). apply upper_chars_ascii. exact H.
+Qed.
+
+(* the repair of the normaliser changed nothing for ASCII spellings *)
+Lemma normalisers_agree_on_ascii : forall s, ascii_only s = true -> parse_curve_unicode s = parse_curve s.
+Proof.
+  intros s H. rewrite parse_curve_current. unfold parse_curve_unicode.
+  rewrite (unicode_upper_ascii_agrees s H). reflexivity.
+Qed.
 
 (* the accept/reject table obtained by executing Curve::from_str *)
 Definition decode_result (r : option string) : parse_result :=
